@@ -100,7 +100,7 @@ func genC20(r *kit.RNG) *C20Scenario {
 	}
 	clients := []string{"10.64.1.1", "10.65.1.1", "2001:db8:c::9"}
 	names := []string{"aonly.six.test.", "aonly.six.test.", "both.six.test.", "aaaaonly.six.test.", "none.six.test.", "nx.six.test.", "alias.six.test.", "xalias.six.test.",
-		"mapped.six.test.", "priv.six.test.", "www.ex.six.test.", "multi.six.test.", "aonly.other.test."}
+		"mapped.six.test.", "priv.six.test.", "www.ex.six.test.", "multi.six.test.", "mixed.six.test.", "mixed.six.test.", "mappedonly.six.test.", "aonly.other.test."}
 	n := r.Range(4, 16)
 	for i := 0; i < n; i++ {
 		op := C20Op{Client: kit.Pick(r, clients), Name: kit.Pick(r, names), Type: dns.TypeAAAA, NoRD: r.Chance(0.06), CD: r.Chance(0.08), DO: r.Chance(0.4), AD: r.Chance(0.3),
@@ -159,7 +159,11 @@ func c20Spec(sc *C20Scenario) *world.Spec {
 				"xalias.six.test. 30 IN CNAME aonly.other.test.",
 				"mapped.six.test. 120 IN AAAA ::ffff:93.184.216.40", "mapped.six.test. 20 IN A 93.184.216.40",
 				"priv.six.test. 120 IN A 10.9.9.9",
-				"multi.six.test. 60 IN A 93.184.216.50", "multi.six.test. 60 IN A 93.184.216.51", "multi.six.test. 60 IN A 192.168.5.5"}},
+				"multi.six.test. 60 IN A 93.184.216.50", "multi.six.test. 60 IN A 93.184.216.51", "multi.six.test. 60 IN A 192.168.5.5",
+				// every AAAA is filtered and there is no A to synthesise from
+				"mappedonly.six.test. 120 IN AAAA ::ffff:93.184.216.41",
+				// an address the well-known prefix excludes listed before translatable ones
+				"mixed.six.test. 60 IN A 10.9.9.8", "mixed.six.test. 60 IN A 93.184.216.52", "mixed.six.test. 60 IN A 100.64.1.1", "mixed.six.test. 60 IN A 93.184.216.53"}},
 		{Name: "ex.six.test.", Signed: sc.Signed, Alg: alg, KeyIdx: 3, Secure: true, NSNames: []string{"ns1.ex.six.test."}, Addrs: []string{"192.0.2.30"}, SOAMin: 40,
 			Records: []string{"ns1.ex.six.test. 3600 IN A 192.0.2.30", "www.ex.six.test. 120 IN A 93.184.216.60"}},
 		{Name: "other.test.", Signed: sc.Signed, Alg: alg, KeyIdx: 4, Secure: true, NSNames: []string{"ns1.other.test."}, Addrs: []string{"192.0.2.40"}, SOAMin: 15,
